@@ -67,7 +67,7 @@ def compare(mod, c: Case):
 def shrink(mod, c: Case, pred) -> Case:
     """Greedy line removal while `pred(case)` still holds (bounded effort)."""
     lines = list(c.lines)
-    budget = 400
+    budget = 0 if os.environ.get("VERIF_NOSHRINK") else 400
     changed = True
     while changed and budget > 0:
         changed = False
